@@ -15,6 +15,7 @@ import DropletsVerif.Driver.C13
 import DropletsVerif.Driver.C16
 import DropletsVerif.Driver.C17
 import DropletsVerif.Driver.C04
+import DropletsVerif.Driver.C09
 
 open DV.Drv
 
@@ -35,6 +36,7 @@ def dispatch (line : String) : String :=
   | "c16" :: args => handleC16 args
   | "c17" :: args => handleC17 args
   | "c04" :: args => handleC04 args
+  | "c09" :: args => handleC09 args
   | "c15" :: args => handleC15 args
   | _ => "bad-op"
 
